@@ -103,15 +103,16 @@ class KGFnWrapper:
         if self._sym is not None:
             try:
                 current = self.klong._context[self._sym]
-                if isinstance(current, KGFn) and (not isinstance(current, KGCall) or isinstance(current.a, KGLambda)):
-                    # Use the current definition
-                    if len(args) != current.arity:
-                        raise RuntimeError(f"Klong function called with {len(args)} but expected {current.arity}")
-                    fn_args = [self.klong._backend.kg_asarray(x) if isinstance(x, list) else x for x in args]
-                    return self.klong.call(KGCall(current.a, [*fn_args], current.arity))
             except KeyError:
                 # Symbol was deleted, fall through to original function
-                pass
+                # (only the lookup is guarded: a KeyError raised by the function itself is the caller's)
+                current = None
+            if isinstance(current, KGFn) and (not isinstance(current, KGCall) or isinstance(current.a, KGLambda)):
+                # Use the current definition
+                if len(args) != current.arity:
+                    raise RuntimeError(f"Klong function called with {len(args)} but expected {current.arity}")
+                fn_args = [self.klong._backend.kg_asarray(x) if isinstance(x, list) else x for x in args]
+                return self.klong.call(KGCall(current.a, [*fn_args], current.arity))
 
         if len(args) != self.fn.arity:
             raise RuntimeError(f"Klong function called with {len(args)} but expected {self.fn.arity}")
